@@ -472,6 +472,10 @@ def parse_digest(ctx, se, t, depth=0):
         return ("raw", "digest chain does not start at new(): %s" % show(h, maxdepth=3))
     if name in MAC_FINAL:
         return parse_digest(ctx, se, ("call", DIGEST_FINAL[0], t[2], t[3]), depth)
+    if name == "<D as digest::Digest>::digest":
+        if not digest_type_ok(ctx, t, "Sha1"):
+            return ("raw", "one-shot digest of unexpected type")
+        return ("H", (bexpr(ctx, se, t[2][0], depth + 1),))
     if name == "md5::Context::compute":
         inputs = []
         h = t[2][0]
